@@ -11,6 +11,8 @@ pub enum Fault {
     ErrWarnOk,
     /// two rpc-errors (warning, error), for a load also `<load-error-count>`: not an acknowledgement
     ErrCount,
+    /// 300 rpc-errors of severity warning, then one of severity error, then `<ok/>`: not an acknowledgement
+    ManyWarnErrOk,
     /// NOT a fault: a warning followed by `<ok/>` (for bare replies: a warning only) is a positive
     /// acknowledgement; the run must go on exactly as without it
     WarnOk,
@@ -26,6 +28,7 @@ impl Fault {
             Fault::RpcError => "rpcerr",
             Fault::ErrWarnOk => "errwarnok",
             Fault::ErrCount => "errcount",
+            Fault::ManyWarnErrOk => "manywarnerrok",
             Fault::WarnOk => "warnok",
             Fault::Malformed => "malformed",
             Fault::WrongId => "wrongid",
@@ -38,6 +41,7 @@ impl Fault {
             "rpcerr" => Fault::RpcError,
             "errwarnok" => Fault::ErrWarnOk,
             "errcount" => Fault::ErrCount,
+            "manywarnerrok" => Fault::ManyWarnErrOk,
             "warnok" => Fault::WarnOk,
             "malformed" => Fault::Malformed,
             "wrongid" => Fault::WrongId,
@@ -159,6 +163,15 @@ pub async fn serve(peer: mt::Peer, script: Script, log: Arc<Mutex<Log>>) {
                     reply(&id, &format!("<load-configuration-results>{ERR}{WARN}<ok/></load-configuration-results>"))
                 } else {
                     reply(&id, &format!("{ERR}{WARN}{ok}"))
+                }
+            }
+            Some(Fault::ManyWarnErrOk) => {
+                let ok = if name == "get-config" { ok_body.clone() } else { "<ok/>".to_string() };
+                let many = WARN.repeat(300);
+                if name == "load-configuration" {
+                    reply(&id, &format!("<load-configuration-results>{many}{ERR}<ok/></load-configuration-results>"))
+                } else {
+                    reply(&id, &format!("{many}{ERR}{ok}"))
                 }
             }
             Some(Fault::ErrCount) => {
